@@ -50,7 +50,7 @@ pub fn transcript(r: &mut Runner, stride: u64, dump: u64, path: Option<&str>) {
     let lvl = level(r);
     // byte searches and counts
     let maxlen = if r.tier == Tier::Thorough { 200 } else { 130 };
-    let nd = [b'a', 0x80, 0xFF];
+    let nsets: [[u8; 3]; 4] = [[b'a', 0x80, 0xFF], [0x00, 0x00, b'z'], [b'k', b'q', b'k'], [0xFF, 0x7F, 0x80]];
     let mut buf = Vec::new();
     let mut unit = 0u64;
     let lens: Vec<usize> = if r.tier == Tier::Miri {
@@ -73,6 +73,7 @@ pub fn transcript(r: &mut Runner, stride: u64, dump: u64, path: Option<&str>) {
             (0..=len).collect()
         };
         for pi in pis {
+            let nd = nsets[(len + pi) % 4];
             let p = if pi == len { None } else { Some(pi) };
             let place = [Place::Arena(0), Place::Arena(1), Place::Arena(15), Place::Arena(33), Place::GuardR, Place::GuardL][(len + pi) % 6];
             for n in 1..=3u8 {
